@@ -226,7 +226,7 @@ def judge (j : Json) : R Verdict := do
           if !(cls.all fun k => amt osb k = den ea k - den eb k) then spec := spec ++ ["sub_pointwise"]
           let ona ← parseDump (← field lawsJ "neg_a")
           if !(cls.all fun k => amt ona k = - den ea k) then spec := spec ++ ["neg_pointwise"]
-          for law in ["comm", "assoc", "sub_neg", "cancel"] do
+          for law in ["comm", "assoc", "sub_neg", "cancel", "zero_immaterial"] do
             let v ← bool (← field lawsJ law)
             if !v then spec := spec ++ ["law:" ++ law]
           let proper := oa.all fun kv => decide kv.1.Proper
